@@ -34,8 +34,8 @@ BANKED = r"""
 #define MAXIMG 256
 static uint32_t lowbank[MAXIMG]; static size_t low_words; static uint32_t *highbank;
 uint32_t *memory; /* unused in this representation */
-static inline uint32_t RD(uint32_t a) { __CPROVER_assert(a < MEMORY_SIZE_WORDS, "hexsim memory index within the simulated memory"); return a < low_words ? lowbank[a] : highbank[a - low_words]; }
-static inline void WR_(uint32_t a, uint32_t v) { __CPROVER_assert(a < MEMORY_SIZE_WORDS, "hexsim memory store index within the simulated memory"); if (a < low_words) lowbank[a] = v; else highbank[a - low_words] = v; }
+static inline uint32_t RD(size_t a) { __CPROVER_assert(a < MEMORY_SIZE_WORDS, "hexsim memory index within the simulated memory"); return a < low_words ? lowbank[a] : highbank[a - low_words]; }
+static inline void WR_(size_t a, uint32_t v) { __CPROVER_assert(a < MEMORY_SIZE_WORDS, "hexsim memory store index within the simulated memory"); if (a < low_words) lowbank[a] = v; else highbank[a - low_words] = v; }
 #define WR(a, v) WR_((a), (v))
 """
 
